@@ -46,6 +46,7 @@ type c07pkg struct {
 	funcs   map[string][]*ast.FuncDecl    // by name (functions and methods)
 	fields  map[string]map[string]string  // struct -> field -> type name
 	chanOf  map[string]map[string]string  // struct -> field -> channel element type
+	sliceOf map[string]map[string]string  // struct -> field -> element type of a []chan field
 	results map[string]string             // function name -> single result type name
 	imports map[*ast.File]map[string]bool // imported package names per file
 	fileOf  map[*ast.FuncDecl]*ast.File
@@ -117,7 +118,7 @@ func c07loadPkg(rel string) *c07pkg {
 	p := &c07pkg{dir: rel, files: map[string]*ast.File{}, funcs: map[string][]*ast.FuncDecl{},
 		fields: map[string]map[string]string{}, results: map[string]string{},
 		imports: map[*ast.File]map[string]bool{}, fileOf: map[*ast.FuncDecl]*ast.File{}, ifaces: map[string][]string{},
-		chanOf: map[string]map[string]string{}}
+		chanOf: map[string]map[string]string{}, sliceOf: map[string]map[string]string{}}
 	ents, err := os.ReadDir(filepath.Join(repo, rel))
 	if err != nil {
 		return p
@@ -172,16 +173,22 @@ func c07loadPkg(rel string) *c07pkg {
 					}
 					m := map[string]string{}
 					cm := map[string]string{}
+					sm := map[string]string{}
 					for _, fl := range st.Fields.List {
 						tn := c07typeName(fl.Type)
 						ce := c07chanElem(fl.Type)
+						se := c07sliceChanElem(fl.Type)
 						for _, nm := range fl.Names {
 							m[nm.Name] = tn
 							if ce != "" {
 								cm[nm.Name] = ce
 							}
+							if se != "" {
+								sm[nm.Name] = se
+							}
 						}
 					}
+					p.sliceOf[ts.Name.Name] = sm
 					p.fields[ts.Name.Name] = m
 					p.chanOf[ts.Name.Name] = cm
 				}
@@ -352,6 +359,69 @@ func c07isCancelChan(e ast.Expr) bool {
 	return false
 }
 
+// element type of the channels in a `[]chan T` type expression ("" otherwise)
+func c07sliceChanElem(e ast.Expr) string {
+	if a, ok := e.(*ast.ArrayType); ok && a.Len == nil {
+		return c07chanElem(a.Elt)
+	}
+	return ""
+}
+
+// rangeElem: `leaf` is the value variable of a `for _, leaf := range X` in fd and X is a []chan T (a parameter,
+// a field, or a local copied from a field): the element type T, else ""
+func (p *c07pkg) rangeElem(leaf string, fd *ast.FuncDecl, sc c07scope) string {
+	if fd == nil || fd.Body == nil {
+		return ""
+	}
+	var sliceType func(x ast.Expr, depth int) string
+	sliceType = func(x ast.Expr, depth int) string {
+		switch v := x.(type) {
+		case *ast.Ident:
+			for _, fl := range fd.Type.Params.List {
+				for _, nm := range fl.Names {
+					if nm.Name == v.Name {
+						return c07sliceChanElem(fl.Type)
+					}
+				}
+			}
+			if depth > 2 {
+				return ""
+			}
+			res := ""
+			ast.Inspect(fd.Body, func(n ast.Node) bool {
+				as, ok := n.(*ast.AssignStmt)
+				if !ok || res != "" {
+					return res == ""
+				}
+				for i, l := range as.Lhs {
+					if id, ok := l.(*ast.Ident); ok && id.Name == v.Name && i < len(as.Rhs) {
+						if _, isId := as.Rhs[i].(*ast.Ident); !isId {
+							res = sliceType(as.Rhs[i], depth+1)
+						}
+					}
+				}
+				return true
+			})
+			return res
+		case *ast.SelectorExpr:
+			if t := p.typeOf(v.X, sc); t != "" {
+				return p.sliceOf[t][v.Sel.Name]
+			}
+		}
+		return ""
+	}
+	res := ""
+	ast.Inspect(fd.Body, func(n ast.Node) bool {
+		if r, ok := n.(*ast.RangeStmt); ok && res == "" {
+			if id, ok := r.Value.(*ast.Ident); ok && id.Name == leaf {
+				res = sliceType(r.X, 0)
+			}
+		}
+		return res == ""
+	})
+	return res
+}
+
 // capacity lower bound of an expression (len(...) = 0); -1 unknown
 func c07capLB(e ast.Expr) int {
 	switch x := e.(type) {
@@ -406,7 +476,7 @@ func c07makeCaps(n ast.Node, name string, elem string) []int {
 	ast.Inspect(n, func(x ast.Node) bool {
 		switch v := x.(type) {
 		case *ast.KeyValueExpr:
-			if id, ok := v.Key.(*ast.Ident); ok && id.Name == name {
+			if id, ok := v.Key.(*ast.Ident); ok && (name == "" || id.Name == name) {
 				if c, ok := isMake(v.Value); ok {
 					out = append(out, c)
 				}
@@ -420,7 +490,7 @@ func c07makeCaps(n ast.Node, name string, elem string) []int {
 				case *ast.SelectorExpr:
 					nm = lv.Sel.Name
 				}
-				if nm == name && i < len(v.Rhs) {
+				if (name == "" || nm == name) && i < len(v.Rhs) {
 					if c, ok := isMake(v.Rhs[i]); ok {
 						out = append(out, c)
 					}
@@ -428,7 +498,7 @@ func c07makeCaps(n ast.Node, name string, elem string) []int {
 			}
 		case *ast.ValueSpec:
 			for i, nmI := range v.Names {
-				if nmI.Name == name && i < len(v.Values) {
+				if (name == "" || nmI.Name == name) && i < len(v.Values) {
 					if c, ok := isMake(v.Values[i]); ok {
 						out = append(out, c)
 					}
@@ -476,8 +546,15 @@ func (p *c07pkg) capOf(ch ast.Expr, fd *ast.FuncDecl, sc c07scope) int {
 		}
 		return m
 	}
+	if _, isId := ch.(*ast.Ident); isId && elem == "" {
+		if re := p.rangeElem(leaf, fd, sc); re != "" {
+			// a channel taken out of a []chan T: every `make(chan T …)` may have put it there; methods of the
+			// same receiver type first, else the whole package
+			elem, leaf = re, ""
+		}
+	}
 	if fd != nil {
-		if cs := c07makeCaps(fd, leaf, elem); len(cs) > 0 {
+		if cs := c07makeCaps(fd, leaf, elem); len(cs) > 0 && leaf != "" {
 			return min(cs)
 		}
 		if _, t := c07recv(fd); t != "" {
